@@ -85,7 +85,12 @@ class RealRays(BaseRays):
         if material is not None:
             k = material.k(self.w)
             alpha = 4 * np.pi * k / self.w
+            # a blocked ray stays blocked and a ray that does not reach the
+            # surface (t is not finite) carries no energy there; without
+            # this 0 * nan turns their intensity into nan
+            dark = (self.i == 0) | ~np.isfinite(t)
             self.i *= np.exp(-alpha * t * 1e3)  # mm to microns
+            self.i = np.where(dark, 0.0, self.i)
 
     def clip(self, condition):
         """Clip the rays based on a condition."""
